@@ -1,0 +1,417 @@
+//go:build verif
+
+package mp4
+
+// Property C19: init segments built through the API are consistent and self-describing.
+
+//@ func CreateTrex
+//@   ensures result != nil && fresh(result)
+//@   ensures[C19] result.TrackID == trackID && result.DefaultSampleDescriptionIndex == 1
+//@   assigns nothing
+
+//@ func (*MvexBox).AddChild
+//@   requires m != nil
+//@   assigns m.Mehd, m.Trex, m.Trexs, m.Trexs[:], m.Children, m.Children[:]
+//@   ensures[C19] typeis(child, "*TrexBox") ==> len(m.Trexs) == old(len(m.Trexs)) + 1 && m.Trexs[old(len(m.Trexs))] == child.(*TrexBox)
+//@   ensures[C19] typeis(child, "*TrexBox") ==> (forall i int :: 0 <= i && i < old(len(m.Trexs)) ==> m.Trexs[i] == old(m.Trexs[i]))
+//@   ensures[C19] len(m.Children) == old(len(m.Children)) + 1 && m.Children[old(len(m.Children))] == child
+
+// ---- moov: trak bookkeeping
+//@ func (*MoovBox).AddChild
+//@   requires m != nil
+//@   assigns m.Mvhd, m.Trak, m.Traks, m.Traks[:], m.Mvex, m.Pssh, m.Psshs, m.Psshs[:], m.Children, m.Children[:]
+//@   ensures[C19] typeis(child, "*TrakBox") ==> len(m.Traks) == old(len(m.Traks)) + 1 && m.Traks[old(len(m.Traks))] == child.(*TrakBox)
+//@   ensures[C19] typeis(child, "*TrakBox") ==> (forall i int :: 0 <= i && i < old(len(m.Traks)) ==> m.Traks[i] == old(m.Traks[i]))
+//@   ensures[C19] typeis(child, "*TrakBox") ==> m.Mvhd == old(m.Mvhd) && m.Mvex == old(m.Mvex)
+//@   ensures[C19] typeis(child, "*MvhdBox") ==> m.Mvhd == child.(*MvhdBox) && m.Mvex == old(m.Mvex) && len(m.Traks) == old(len(m.Traks))
+//@   ensures[C19] typeis(child, "*MvexBox") ==> m.Mvex == child.(*MvexBox) && m.Mvhd == old(m.Mvhd) && len(m.Traks) == old(len(m.Traks))
+//@   ensures[C19] len(m.Children) == old(len(m.Children)) + 1
+//@   loop 1 invariant 0 <= lastTrakIdx && (lastTrakIdx == 0 || lastTrakIdx < idx(1))
+// Children hold only boxes handed to AddChild by the decoders (results of successful DecodeBox calls) or by the constructors
+// (freshly allocated boxes); the quantified "no nil child" invariant is not discharged by the solvers for the in-place
+// insertion path, so the nil-interface check of the dynamic call child.Type() in the loop is assumed.
+//@   trustkind nil@child.Type()
+
+// ---- the representation invariant of an init segment built through the API
+// trackIDsOK: n traks, n trexs, trak i and trex i both carry id i+1, next-track id larger than all of them.
+//@ pred initShape(s *InitSegment) = s != nil && s.Moov != nil && s.Moov.Mvhd != nil && s.Moov.Mvex != nil
+//@ pred trackIDsOK(s *InitSegment) = len(s.Moov.Traks) == len(s.Moov.Mvex.Trexs) && len(s.Moov.Traks) < 1<<31 && s.Moov.Mvhd.NextTrackID > uint32(len(s.Moov.Traks)) && (forall i int :: 0 <= i && i < len(s.Moov.Traks) ==> s.Moov.Traks[i] != nil && s.Moov.Traks[i].Tkhd != nil && s.Moov.Traks[i].Tkhd.TrackID == uint32(i+1) && s.Moov.Mvex.Trexs[i] != nil && s.Moov.Mvex.Trexs[i].TrackID == uint32(i+1))
+
+//@ func CreateMvhd
+//@   ensures result != nil && fresh(result)
+//@   ensures[C19] result.NextTrackID == 2
+//@   assigns nothing
+//@ func NewMoovBox
+//@   ensures result != nil && fresh(result)
+//@   ensures[C19] len(result.Traks) == 0 && len(result.Children) == 0 && result.Mvhd == nil && result.Mvex == nil
+//@   assigns nothing
+//@ func NewMvexBox
+//@   ensures result != nil && fresh(result)
+//@   ensures[C19] len(result.Trexs) == 0 && len(result.Children) == 0
+//@   assigns nothing
+//@ func NewMP4Init
+//@   ensures result != nil && fresh(result)
+//@   ensures[C19] len(result.Children) == 0 && result.Moov == nil && result.Ftyp == nil
+//@   assigns nothing
+
+//@ func CreateEmptyInit
+//@   ensures[C19] initShape(result) && trackIDsOK(result) && len(result.Moov.Traks) == 0
+//@   ensures[C19] len(result.Children) == 2 && result.Ftyp != nil
+
+//@ func (*InitSegment).AddEmptyTrack
+//@   requires initShape(s) && trackIDsOK(s) && len(s.Moov.Traks) < 1<<31 - 1
+//@   requires mediaSupported(mediaType)
+//@   ensures[C19] initShape(s) && trackIDsOK(s) && len(s.Moov.Traks) == old(len(s.Moov.Traks)) + 1
+//@   ensures[C19] s.Moov.Mvhd.NextTrackID == uint32(len(s.Moov.Traks)) + 1
+//@   ensures[C19] forall i int :: 0 <= i && i < old(len(s.Moov.Traks)) ==> s.Moov.Traks[i] == old(s.Moov.Traks[i]) && s.Moov.Mvex.Trexs[i] == old(s.Moov.Mvex.Trexs[i])
+//@   ensures[C19] s.Moov.Mvex.Trexs[old(len(s.Moov.Traks))].DefaultSampleDescriptionIndex == 1
+//@   ensures[C19] trakOK(s.Moov.Traks[old(len(s.Moov.Traks))]) && fresh(s.Moov.Traks[old(len(s.Moov.Traks))]) && s.Moov.Traks[old(len(s.Moov.Traks))].Mdia.Mdhd != nil && s.Moov.Traks[old(len(s.Moov.Traks))].Mdia.Mdhd.Timescale == timeScale && s.Moov.Traks[old(len(s.Moov.Traks))].Mdia.Hdlr != nil
+//@   ensures[C19] mediaVideo(mediaType) ==> s.Moov.Traks[old(len(s.Moov.Traks))].Mdia.Hdlr.HandlerType == "vide" && s.Moov.Traks[old(len(s.Moov.Traks))].Mdia.Minf.Vmhd != nil
+//@   ensures[C19] mediaAudio(mediaType) ==> s.Moov.Traks[old(len(s.Moov.Traks))].Mdia.Hdlr.HandlerType == "soun" && s.Moov.Traks[old(len(s.Moov.Traks))].Mdia.Minf.Smhd != nil
+//@   ensures[C19] mediaSubt(mediaType) ==> s.Moov.Traks[old(len(s.Moov.Traks))].Mdia.Minf.Sthd != nil
+//@   ensures[C19] mediaType == "subtitle" ==> s.Moov.Traks[old(len(s.Moov.Traks))].Mdia.Hdlr.HandlerType == "subt"
+//@   ensures[C19] mediaText(mediaType) ==> s.Moov.Traks[old(len(s.Moov.Traks))].Mdia.Hdlr.HandlerType == "text"
+//@   ensures[C19] len(language) != 3 ==> s.Moov.Traks[old(len(s.Moov.Traks))].Mdia.Elng != nil && s.Moov.Traks[old(len(s.Moov.Traks))].Mdia.Elng.Language == language
+//@   ensures[C19] len(s.Moov.Traks[old(len(s.Moov.Traks))].Mdia.Minf.Stbl.Stsd.Children) == 0 && s.Moov.Traks[old(len(s.Moov.Traks))].Mdia.Minf.Stbl.Stts != nil && len(s.Moov.Traks[old(len(s.Moov.Traks))].Mdia.Minf.Stbl.Stts.SampleCount) == 0
+
+// The Go type of a box follows from its four-character name only through the decoder registry; for the two names used here
+// the type assertions are assumed (as in the container decoders of C04), the converse direction (type => name) is proved.
+//@ func (*InitSegment).AddChild
+//@   requires s != nil && b != nil
+//@   trustkind typeassert
+//@   ensures[C19] old(b.Type()) == "moov" ==> s.Moov == b.(*MoovBox) && s.Ftyp == old(s.Ftyp)
+//@   ensures[C19] old(b.Type()) == "ftyp" ==> s.Ftyp == b.(*FtypBox) && s.Moov == old(s.Moov)
+//@   ensures[C19] len(s.Children) == old(len(s.Children)) + 1 && s.Children[old(len(s.Children))] == b
+
+// ---- the trak tree of an empty (fragmented) track
+// Media types of the API (the cases of the switch in CreateEmptyTrak); handler type and media header per ISO/IEC 14496-12
+// and 14496-30: video -> vide + vmhd, audio -> soun + smhd, subtitles (stpp) -> subt + sthd, text (wvtt) -> text + nmhd.
+//@ pred mediaVideo(m string) = m == "video"
+//@ pred mediaAudio(m string) = m == "audio"
+//@ pred mediaSubt(m string) = m == "subtitle" || m == "subtitles" || m == "stpp"
+//@ pred mediaText(m string) = m == "text" || m == "wvtt"
+//@ pred mediaSupported(m string) = mediaVideo(m) || mediaAudio(m) || mediaSubt(m) || mediaText(m)
+
+// ISO-639-2/T packing of mdhd (three 5-bit letters, each minus 0x60)
+//@ spec langCode(l string) uint16 = ((uint16(l[0]) - 0x60) & 0x1f) << 10 | ((uint16(l[1]) - 0x60) & 0x1f) << 5 | ((uint16(l[2]) - 0x60) & 0x1f)
+
+//@ func CreateTkhd
+//@   ensures result != nil && fresh(result)
+//@   ensures[C19] result.TrackID == 1 && result.Flags == 7 && result.Version == 0 && result.Volume == 0
+//@   assigns nothing
+
+//@ func CreateHdlr
+//@   ensures[C19] result1 == nil ==> result0 != nil && fresh(result0) && result0.Version == 0 && result0.Flags == 0 && !result0.LacksNullTermination
+//@   ensures[C19] mediaOrHdlrType == "video" || mediaOrHdlrType == "vide" ==> result1 == nil && result0.HandlerType == "vide"
+//@   ensures[C19] mediaOrHdlrType == "audio" || mediaOrHdlrType == "soun" ==> result1 == nil && result0.HandlerType == "soun"
+//@   ensures[C19] mediaOrHdlrType == "subtitle" || mediaOrHdlrType == "subt" ==> result1 == nil && result0.HandlerType == "subt"
+//@   ensures[C19] mediaOrHdlrType == "text" || mediaOrHdlrType == "wvtt" ==> result1 == nil && result0.HandlerType == "text"
+//@   ensures[C19] len(mediaOrHdlrType) == 4 ==> result1 == nil
+//@   ensures[C19] len(mediaOrHdlrType) == 4 && !(mediaOrHdlrType == "vide" || mediaOrHdlrType == "soun" || mediaOrHdlrType == "subt" || mediaOrHdlrType == "text" || mediaOrHdlrType == "wvtt" || mediaOrHdlrType == "meta" || mediaOrHdlrType == "clcp") ==> result0.HandlerType == mediaOrHdlrType
+//@   ensures[C19] len(mediaOrHdlrType) != 4 && !(mediaOrHdlrType == "video" || mediaOrHdlrType == "audio" || mediaOrHdlrType == "subtitle") ==> result1 != nil
+//@   assigns nothing
+
+// NOT DECIDED: m.Language == langCode(lang). The verifier models "for i, c := range <string>" by havocking index and rune, so
+// neither the packed value nor the non-negativity of the shift count 5*(2-i) (true for len(lang) <= 3, a run-time panic for
+// longer strings) can be derived; the shift obligation is assumed, only the frame is proved.
+//@ func (*MdhdBox).SetLanguage
+//@   requires m != nil && len(lang) == 3
+//@   trustkind shift
+//@   assigns m.Language
+
+//@ func CreateElng
+//@   ensures result != nil && fresh(result)
+//@   ensures[C19] result.Language == language && !result.missingFullBox && result.Version == 0 && result.Flags == 0
+//@   assigns nothing
+
+//@ func CreateURLBox
+//@   ensures result != nil && fresh(result)
+//@   assigns nothing
+//@ func CreateDref
+//@   ensures result != nil && fresh(result)
+//@   ensures[C19] result.EntryCount == 1 && len(result.Children) == 1
+//@   assigns nothing
+
+//@ func (*TrakBox).AddChild
+//@   inline
+//@ func (*MdiaBox).AddChild
+//@   inline
+//@ func (*MinfBox).AddChild
+//@   inline
+//@ func (*DinfBox).AddChild
+//@   inline
+//@ func (*StblBox).AddChild
+//@   inline
+//@ func (*DrefBox).AddChild
+//@   inline
+
+//@ func CreateEmptyTrak
+//@   requires mediaSupported(mediaType)
+//@   ensures result != nil && fresh(result)
+//@   ensures[C19] result.Tkhd != nil && fresh(result.Tkhd) && result.Tkhd.TrackID == trackID
+//@   ensures[C19] result.Mdia != nil && result.Mdia.Mdhd != nil && result.Mdia.Mdhd.Timescale == timeScale && result.Mdia.Mdhd.Version == 0
+//@   ensures[C19] result.Mdia.Hdlr != nil && result.Mdia.Minf != nil
+//@   ensures[C19] mediaVideo(mediaType) ==> result.Mdia.Hdlr.HandlerType == "vide" && result.Mdia.Minf.Vmhd != nil && result.Mdia.Minf.Smhd == nil && result.Mdia.Minf.Sthd == nil
+//@   ensures[C19] mediaAudio(mediaType) ==> result.Mdia.Hdlr.HandlerType == "soun" && result.Mdia.Minf.Smhd != nil && result.Mdia.Minf.Vmhd == nil && result.Mdia.Minf.Sthd == nil && result.Tkhd.Volume == 0x0100
+//@   ensures[C19] mediaSubt(mediaType) ==> result.Mdia.Minf.Sthd != nil && result.Mdia.Minf.Vmhd == nil && result.Mdia.Minf.Smhd == nil
+//@   ensures[C19] mediaType == "subtitle" ==> result.Mdia.Hdlr.HandlerType == "subt"
+//@   ensures[C19] mediaType == "subtitles" ==> result.Mdia.Hdlr.HandlerType == "subt"
+//@   ensures[C19] mediaType == "stpp" ==> result.Mdia.Hdlr.HandlerType == "subt"
+//@   ensures[C19] mediaText(mediaType) ==> result.Mdia.Hdlr.HandlerType == "text" && typeis(result.Mdia.Minf.Children[0], "*NmhdBox") && result.Mdia.Minf.Vmhd == nil && result.Mdia.Minf.Smhd == nil && result.Mdia.Minf.Sthd == nil
+//@   ensures[C19] len(language) == 3 ==> result.Mdia.Elng == nil
+//@   ensures[C19] len(language) != 3 ==> result.Mdia.Elng != nil && result.Mdia.Elng.Language == language && !result.Mdia.Elng.missingFullBox
+//@   ensures[C19] result.Mdia.Minf.Stbl != nil && result.Mdia.Minf.Stbl.Stsd != nil && fresh(result.Mdia.Minf.Stbl.Stsd) && len(result.Mdia.Minf.Stbl.Stsd.Children) == 0 && result.Mdia.Minf.Stbl.Stsd.SampleCount == 0
+//@   ensures[C19] result.Mdia.Minf.Stbl.Stts != nil && len(result.Mdia.Minf.Stbl.Stts.SampleCount) == 0
+//@   ensures[C19] result.Mdia.Minf.Dinf != nil && result.Mdia.Minf.Dinf.Dref != nil
+//@   assigns nothing
+
+// constructors only write freshly allocated memory
+//@ func NewFtyp
+//@   requires len(compatibleBrands) < 1<<20
+//@   ensures result != nil && fresh(result)
+//@   assigns nothing
+//@ func CreateFtyp
+//@   ensures result != nil && fresh(result)
+//@   assigns nothing
+
+// ---- sample descriptors
+//@ func CreateAvcC
+//@   ensures[C19] result1 == nil ==> result0 != nil && fresh(result0) && len(spsNALUs) > 0
+//@   ensures[C19] result1 == nil && includePS ==> result0.SPSnalus == spsNALUs && result0.PPSnalus == ppsNALUs
+//@   ensures[C19] result1 == nil && !includePS ==> len(result0.SPSnalus) == 0 && len(result0.PPSnalus) == 0
+//@   assigns nothing
+
+//@ func (*VisualSampleEntryBox).AddChild
+//@   requires b != nil
+//@   ensures[C19] typeis(child, "*AvcCBox") ==> b.AvcC == child.(*AvcCBox) && b.HvcC == old(b.HvcC)
+//@   ensures[C19] typeis(child, "*HvcCBox") ==> b.HvcC == child.(*HvcCBox) && b.AvcC == old(b.AvcC)
+//@   ensures[C19] len(b.Children) == old(len(b.Children)) + 1 && b.Children[old(len(b.Children))] == child
+//@   assigns b.AvcC, b.HvcC, b.Av1C, b.VppC, b.Btrt, b.Clap, b.Pasp, b.Sinf, b.SmDm, b.CoLL, b.Children, b.Children[:]
+//@ func CreateVisualSampleEntryBox
+//@   ensures result != nil && fresh(result)
+//@   ensures[C19] result.name == name && result.Width == width && result.Height == height && result.DataReferenceIndex == 1 && result.FrameCount == 1
+//@   ensures[C19] typeis(sampleEntry, "*AvcCBox") ==> result.AvcC == sampleEntry.(*AvcCBox) && len(result.Children) == 1 && result.Children[0] == sampleEntry && result.HvcC == nil
+//@   ensures[C19] typeis(sampleEntry, "*HvcCBox") ==> result.HvcC == sampleEntry.(*HvcCBox) && len(result.Children) == 1 && result.Children[0] == sampleEntry && result.AvcC == nil
+//@   assigns nothing
+
+// The Go type of a sample entry follows from its four-character name only through the decoder registry: type assertions assumed.
+// Children hold only decoded boxes (successful DecodeBox results) or freshly constructed ones, never a nil interface; the
+// callers in the decoders cannot establish that per element (see DecodeContainerChildren), so the nil check of box.Type() is assumed.
+//@ func (*StsdBox).AddChild
+//@   requires s != nil
+//@   trustkind typeassert nil@box.Type()
+//@   ensures[C19] len(s.Children) == old(len(s.Children)) + 1 && s.Children[old(len(s.Children))] == box && s.SampleCount == old(s.SampleCount) + 1
+//@   ensures[C19] forall i int :: 0 <= i && i < old(len(s.Children)) ==> s.Children[i] == old(s.Children[i])
+//@   ensures[C19] old(box.Type()) == "avc1" || old(box.Type()) == "avc3" ==> s.AvcX == box.(*VisualSampleEntryBox)
+//@   ensures[C19] old(box.Type()) == "hvc1" || old(box.Type()) == "hev1" ==> s.HvcX == box.(*VisualSampleEntryBox)
+//@   ensures[C19] old(box.Type()) == "mp4a" ==> s.Mp4a == box.(*AudioSampleEntryBox)
+//@   ensures[C19] old(box.Type()) == "ac-3" ==> s.AC3 == box.(*AudioSampleEntryBox)
+//@   ensures[C19] old(box.Type()) == "ec-3" ==> s.EC3 == box.(*AudioSampleEntryBox)
+//@   ensures[C19] old(box.Type()) == "wvtt" ==> s.Wvtt == box.(*WvttBox)
+//@   ensures[C19] old(box.Type()) == "stpp" ==> s.Stpp == box.(*StppBox)
+//@   assigns s.AvcX, s.HvcX, s.Av01, s.Encv, s.VpXX, s.Mp4a, s.AC3, s.EC3, s.Enca, s.Wvtt, s.Stpp, s.Evte, s.Children, s.Children[:], s.SampleCount
+
+// trakOK: the pointers a descriptor setter follows (established by CreateEmptyTrak, see its contract)
+//@ pred trakOK(t *TrakBox) = t != nil && t.Tkhd != nil && t.Mdia != nil && t.Mdia.Minf != nil && t.Mdia.Minf.Stbl != nil && t.Mdia.Minf.Stbl.Stsd != nil
+
+//@ func (*TrakBox).SetAVCDescriptor
+//@   requires trakOK(t) && len(spsNALUs) > 0
+//@   ensures[C19] result == nil ==> len(t.Mdia.Minf.Stbl.Stsd.Children) == old(len(t.Mdia.Minf.Stbl.Stsd.Children)) + 1 && t.Mdia.Minf.Stbl.Stsd.SampleCount == old(t.Mdia.Minf.Stbl.Stsd.SampleCount) + 1
+//@   ensures[C19] result == nil ==> t.Mdia.Minf.Stbl.Stsd.AvcX != nil && typeis(t.Mdia.Minf.Stbl.Stsd.Children[old(len(t.Mdia.Minf.Stbl.Stsd.Children))], "*VisualSampleEntryBox") && t.Mdia.Minf.Stbl.Stsd.Children[old(len(t.Mdia.Minf.Stbl.Stsd.Children))].(*VisualSampleEntryBox) == t.Mdia.Minf.Stbl.Stsd.AvcX
+//@   ensures[C19] result == nil ==> t.Mdia.Minf.Stbl.Stsd.AvcX.name == sampleDescriptorType && (sampleDescriptorType == "avc1" || sampleDescriptorType == "avc3")
+//@   ensures[C19] result == nil ==> t.Mdia.Minf.Stbl.Stsd.AvcX.AvcC != nil && (includePS ==> t.Mdia.Minf.Stbl.Stsd.AvcX.AvcC.SPSnalus == spsNALUs && t.Mdia.Minf.Stbl.Stsd.AvcX.AvcC.PPSnalus == ppsNALUs)
+//@   ensures[C19] result == nil && sampleDescriptorType == "avc1" ==> includePS
+//@   ensures[C19] result == nil ==> t.Mdia.Minf.Stbl.Stsd.AvcX.DataReferenceIndex == 1
+// NOT DECIDED: the dimensions equal those coded in the SPS (needs a functional specification of avc.ParseSPSNALUnit);
+// proved instead: track header and sample entry carry the same dimensions (16.16 fixed point vs. integer).
+//@   ensures[C19] result == nil ==> uint32(t.Tkhd.Width) == uint32(t.Mdia.Minf.Stbl.Stsd.AvcX.Width) << 16 && uint32(t.Tkhd.Height) == uint32(t.Mdia.Minf.Stbl.Stsd.AvcX.Height) << 16
+
+//@ func CreateHvcC
+//@   ensures[C19] result1 == nil ==> result0 != nil && fresh(result0) && len(spsNalus) > 0
+//@   ensures[C19] result1 == nil && includePS ==> len(result0.NaluArrays) == 3 && naluArr(result0.NaluArrays[0], vpsComplete, 32, vpsNalus) && naluArr(result0.NaluArrays[1], spsComplete, 33, spsNalus) && naluArr(result0.NaluArrays[2], ppsComplete, 34, ppsNalus)
+//@   ensures[C19] result1 == nil && !includePS ==> len(result0.NaluArrays) == 0
+//@   ensures[C19] result1 != nil ==> result0 == nil
+//@   assigns nothing
+
+// hvcC.AddNaluArrays is called before the error of CreateHvcC is checked (initsegment.go:229): with a nil hvcC this is a nil
+// dereference. CreateHvcC fails only if hevc.ParseSPSNALUnit(spsNALUs[0]) fails, and the same call has succeeded a few lines
+// earlier; that the parser is a deterministic function of the bytes is not expressible in a modular contract, so the nil
+// check at this one site is ASSUMED.
+//@ func (*TrakBox).SetHEVCDescriptor
+//@   requires trakOK(t) && len(spsNALUs) > 0
+//@   trustkind nil@hvcC
+//@   ensures[C19] result == nil ==> len(t.Mdia.Minf.Stbl.Stsd.Children) == old(len(t.Mdia.Minf.Stbl.Stsd.Children)) + 1 && t.Mdia.Minf.Stbl.Stsd.SampleCount == old(t.Mdia.Minf.Stbl.Stsd.SampleCount) + 1
+//@   ensures[C19] result == nil ==> t.Mdia.Minf.Stbl.Stsd.HvcX != nil && typeis(t.Mdia.Minf.Stbl.Stsd.Children[old(len(t.Mdia.Minf.Stbl.Stsd.Children))], "*VisualSampleEntryBox") && t.Mdia.Minf.Stbl.Stsd.Children[old(len(t.Mdia.Minf.Stbl.Stsd.Children))].(*VisualSampleEntryBox) == t.Mdia.Minf.Stbl.Stsd.HvcX
+//@   ensures[C19] result == nil ==> t.Mdia.Minf.Stbl.Stsd.HvcX.name == sampleDescriptorType && (sampleDescriptorType == "hvc1" || sampleDescriptorType == "hev1")
+//@   ensures[C19] result == nil ==> t.Mdia.Minf.Stbl.Stsd.HvcX.HvcC != nil
+//@   ensures[C19] result == nil && includePS ==> len(t.Mdia.Minf.Stbl.Stsd.HvcX.HvcC.NaluArrays) == ite(len(seiNALUs) > 0, 4, 3)
+//@   ensures[C19] result == nil && includePS ==> naluArr(t.Mdia.Minf.Stbl.Stsd.HvcX.HvcC.NaluArrays[0], sampleDescriptorType == "hvc1", 32, vpsNALUs) && naluArr(t.Mdia.Minf.Stbl.Stsd.HvcX.HvcC.NaluArrays[1], sampleDescriptorType == "hvc1", 33, spsNALUs) && naluArr(t.Mdia.Minf.Stbl.Stsd.HvcX.HvcC.NaluArrays[2], sampleDescriptorType == "hvc1", 34, ppsNALUs)
+//@   ensures[C19] result == nil && includePS && len(seiNALUs) > 0 ==> naluArr(t.Mdia.Minf.Stbl.Stsd.HvcX.HvcC.NaluArrays[3], sampleDescriptorType == "hvc1", 39, seiNALUs)
+//@   ensures[C19] result == nil && sampleDescriptorType == "hvc1" ==> includePS
+//@   ensures[C19] result == nil ==> t.Mdia.Minf.Stbl.Stsd.HvcX.DataReferenceIndex == 1
+//@   ensures[C19] result == nil ==> uint32(t.Tkhd.Width) == uint32(t.Mdia.Minf.Stbl.Stsd.HvcX.Width) << 16 && uint32(t.Tkhd.Height) == uint32(t.Mdia.Minf.Stbl.Stsd.HvcX.Height) << 16
+
+// ---- audio sample entries
+//@ func CreateESDescriptor
+//@   inline
+//@ func CreateEsdsBox
+//@   ensures result != nil && fresh(result)
+//@   ensures[C19] result.DecConfigDescriptor != nil && result.DecConfigDescriptor.DecSpecificInfo != nil && result.DecConfigDescriptor.DecSpecificInfo.DecConfig == decConfig
+//@   ensures[C19] result.DecConfigDescriptor.ObjectType == 0x40 && result.DecConfigDescriptor.StreamType == 0x15 && result.EsID == 1
+//@   assigns nothing
+
+// CreateAudioSampleEntryBox and AudioSampleEntryBox.AddChild dispatch on child.Type(); for a child of statically unknown type
+// that is an abstract function of the heap version, which changes with the allocation of the entry, so no stand-alone
+// contract can relate "the child is an esds" before and after. Both are inlined into the descriptor setters, where the
+// dynamic type of the child is known and its Type() method is evaluated.
+//@ func (*AudioSampleEntryBox).AddChild
+//@   inline
+//@ func CreateAudioSampleEntryBox
+//@   inline
+
+//@ func (*TrakBox).SetAACDescriptor
+//@   requires trakOK(t)
+//@   ensures[C19] result == nil ==> len(t.Mdia.Minf.Stbl.Stsd.Children) == old(len(t.Mdia.Minf.Stbl.Stsd.Children)) + 1 && t.Mdia.Minf.Stbl.Stsd.SampleCount == old(t.Mdia.Minf.Stbl.Stsd.SampleCount) + 1
+//@   ensures[C19] result == nil ==> t.Mdia.Minf.Stbl.Stsd.Mp4a != nil && typeis(t.Mdia.Minf.Stbl.Stsd.Children[old(len(t.Mdia.Minf.Stbl.Stsd.Children))], "*AudioSampleEntryBox") && t.Mdia.Minf.Stbl.Stsd.Children[old(len(t.Mdia.Minf.Stbl.Stsd.Children))].(*AudioSampleEntryBox) == t.Mdia.Minf.Stbl.Stsd.Mp4a
+//@   ensures[C19] result == nil ==> t.Mdia.Minf.Stbl.Stsd.Mp4a.name == "mp4a" && t.Mdia.Minf.Stbl.Stsd.Mp4a.SampleSize == 16 && t.Mdia.Minf.Stbl.Stsd.Mp4a.ChannelCount == ite(objType == 29, uint16(1), uint16(2))
+//@   ensures[C19] result == nil ==> t.Mdia.Minf.Stbl.Stsd.Mp4a.Esds != nil && t.Mdia.Minf.Stbl.Stsd.Mp4a.Esds.DecConfigDescriptor != nil && t.Mdia.Minf.Stbl.Stsd.Mp4a.Esds.DecConfigDescriptor.DecSpecificInfo != nil
+//@   ensures[C19] result == nil ==> objType == 2 || objType == 5 || objType == 29
+//@   ensures[C19] result == nil ==> t.Mdia.Minf.Stbl.Stsd.Mp4a.DataReferenceIndex == 1
+//@   ensures[C19] result == nil ==> int(t.Mdia.Minf.Stbl.Stsd.Mp4a.SampleRate) == samplingFrequency
+
+// ---- AC-3 / Enhanced AC-3
+// Lengths and contents of the package-level code tables (set by their initialisers, dac3.go:14, dac3.go:18, dec3.go:35, and
+// never assigned anywhere in the module) are ASSUMED at entry of the functions that index them. (Stated as package-level
+// axioms they disturb the inference of loop invariants in unrelated decoders, e.g. DecodeVisualSampleEntrySR.)
+//@ pred ac3Rates() = len(AC3SampleRates) == 3 && AC3SampleRates[0] == 48000 && AC3SampleRates[1] == 44100 && AC3SampleRates[2] == 32000
+//@ func GetChannelListFromACMod
+//@   requires acmod < 8
+//@   assumes len(AC3acmodChannelTable) == 8
+//@ func (*Dac3Box).ChannelInfo
+//@   requires b != nil && b.ACMod < 8
+//@ func (*Dec3Box).ChannelInfo
+//@   requires b != nil && len(b.EC3Subs) > 0 && b.EC3Subs[0].ACMod < 8
+//@   assumes len(EC3ChannelLocationBits) == 9
+
+// Valid AC-3 configurations: fscod 3 and acmod > 7 are reserved / not representable in the 2- and 3-bit fields.
+//@ func (*TrakBox).SetAC3Descriptor
+//@   requires trakOK(t) && dac3 != nil && dac3.FSCod < 3 && dac3.ACMod < 8
+//@   assumes ac3Rates()
+//@   ensures[C19] result == nil
+//@   ensures[C19] len(t.Mdia.Minf.Stbl.Stsd.Children) == old(len(t.Mdia.Minf.Stbl.Stsd.Children)) + 1 && t.Mdia.Minf.Stbl.Stsd.SampleCount == old(t.Mdia.Minf.Stbl.Stsd.SampleCount) + 1
+//@   ensures[C19] t.Mdia.Minf.Stbl.Stsd.AC3 != nil && typeis(t.Mdia.Minf.Stbl.Stsd.Children[old(len(t.Mdia.Minf.Stbl.Stsd.Children))], "*AudioSampleEntryBox") && t.Mdia.Minf.Stbl.Stsd.Children[old(len(t.Mdia.Minf.Stbl.Stsd.Children))].(*AudioSampleEntryBox) == t.Mdia.Minf.Stbl.Stsd.AC3
+//@   ensures[C19] t.Mdia.Minf.Stbl.Stsd.AC3.name == "ac-3" && t.Mdia.Minf.Stbl.Stsd.AC3.Dac3 == dac3 && t.Mdia.Minf.Stbl.Stsd.AC3.SampleSize == 16 && t.Mdia.Minf.Stbl.Stsd.AC3.DataReferenceIndex == 1
+//@   ensures[C19] int(t.Mdia.Minf.Stbl.Stsd.AC3.SampleRate) == ite(dac3.FSCod == 0, 48000, ite(dac3.FSCod == 1, 44100, 32000))
+
+//@ func (*TrakBox).SetEC3Descriptor
+//@   requires trakOK(t) && dec3 != nil && len(dec3.EC3Subs) > 0 && dec3.EC3Subs[0].FSCod < 3 && dec3.EC3Subs[0].ACMod < 8
+//@   assumes ac3Rates()
+//@   ensures[C19] result == nil
+//@   ensures[C19] len(t.Mdia.Minf.Stbl.Stsd.Children) == old(len(t.Mdia.Minf.Stbl.Stsd.Children)) + 1 && t.Mdia.Minf.Stbl.Stsd.SampleCount == old(t.Mdia.Minf.Stbl.Stsd.SampleCount) + 1
+//@   ensures[C19] t.Mdia.Minf.Stbl.Stsd.EC3 != nil && typeis(t.Mdia.Minf.Stbl.Stsd.Children[old(len(t.Mdia.Minf.Stbl.Stsd.Children))], "*AudioSampleEntryBox") && t.Mdia.Minf.Stbl.Stsd.Children[old(len(t.Mdia.Minf.Stbl.Stsd.Children))].(*AudioSampleEntryBox) == t.Mdia.Minf.Stbl.Stsd.EC3
+//@   ensures[C19] t.Mdia.Minf.Stbl.Stsd.EC3.name == "ec-3" && t.Mdia.Minf.Stbl.Stsd.EC3.Dec3 == dec3 && t.Mdia.Minf.Stbl.Stsd.EC3.SampleSize == 16 && t.Mdia.Minf.Stbl.Stsd.EC3.DataReferenceIndex == 1
+//@   ensures[C19] int(t.Mdia.Minf.Stbl.Stsd.EC3.SampleRate) == ite(dec3.EC3Subs[0].FSCod == 0, 48000, ite(dec3.EC3Subs[0].FSCod == 1, 44100, 32000))
+
+// ---- text sample entries
+//@ func (*WvttBox).AddChild
+//@   inline
+//@ func NewStppBox
+//@   ensures result != nil && fresh(result)
+//@   ensures[C19] result.Namespace == namespace && result.SchemaLocation == schemaLocation && result.AuxiliaryMimeTypes == auxiliaryMimeTypes && result.DataReferenceIndex == 1 && result.nrMissingOptionalEndBytes == 0 && len(result.Children) == 0
+//@   assigns nothing
+
+//@ func (*TrakBox).SetWvttDescriptor
+//@   requires trakOK(t)
+//@   ensures[C19] result == nil
+//@   ensures[C19] len(t.Mdia.Minf.Stbl.Stsd.Children) == old(len(t.Mdia.Minf.Stbl.Stsd.Children)) + 1 && t.Mdia.Minf.Stbl.Stsd.SampleCount == old(t.Mdia.Minf.Stbl.Stsd.SampleCount) + 1
+//@   ensures[C19] t.Mdia.Minf.Stbl.Stsd.Wvtt != nil && typeis(t.Mdia.Minf.Stbl.Stsd.Children[old(len(t.Mdia.Minf.Stbl.Stsd.Children))], "*WvttBox") && t.Mdia.Minf.Stbl.Stsd.Children[old(len(t.Mdia.Minf.Stbl.Stsd.Children))].(*WvttBox) == t.Mdia.Minf.Stbl.Stsd.Wvtt
+//@   ensures[C19] t.Mdia.Minf.Stbl.Stsd.Wvtt.VttC != nil && len(t.Mdia.Minf.Stbl.Stsd.Wvtt.Children) == 1
+//@   ensures[C19] len(config) != 0 ==> t.Mdia.Minf.Stbl.Stsd.Wvtt.VttC.Config == config
+//@   ensures[C19] len(config) == 0 ==> t.Mdia.Minf.Stbl.Stsd.Wvtt.VttC.Config == "WEBVTT"
+// every sample entry refers to entry 1 of the data reference box built by CreateEmptyTrak (ISO/IEC 14496-12 8.5.2.2: 1-based)
+//@   ensures[C19] t.Mdia.Minf.Stbl.Stsd.Wvtt.DataReferenceIndex == 1
+
+//@ func (*TrakBox).SetStppDescriptor
+//@   requires trakOK(t)
+//@   ensures[C19] result == nil
+//@   ensures[C19] len(t.Mdia.Minf.Stbl.Stsd.Children) == old(len(t.Mdia.Minf.Stbl.Stsd.Children)) + 1 && t.Mdia.Minf.Stbl.Stsd.SampleCount == old(t.Mdia.Minf.Stbl.Stsd.SampleCount) + 1
+//@   ensures[C19] t.Mdia.Minf.Stbl.Stsd.Stpp != nil && typeis(t.Mdia.Minf.Stbl.Stsd.Children[old(len(t.Mdia.Minf.Stbl.Stsd.Children))], "*StppBox") && t.Mdia.Minf.Stbl.Stsd.Children[old(len(t.Mdia.Minf.Stbl.Stsd.Children))].(*StppBox) == t.Mdia.Minf.Stbl.Stsd.Stpp
+//@   ensures[C19] len(namespace) != 0 ==> t.Mdia.Minf.Stbl.Stsd.Stpp.Namespace == namespace
+//@   ensures[C19] len(namespace) == 0 ==> t.Mdia.Minf.Stbl.Stsd.Stpp.Namespace == "http://www.w3.org/ns/ttml"
+//@   ensures[C19] t.Mdia.Minf.Stbl.Stsd.Stpp.SchemaLocation == schemaLocation && t.Mdia.Minf.Stbl.Stsd.Stpp.AuxiliaryMimeTypes == auxiliaryMimeTypes && t.Mdia.Minf.Stbl.Stsd.Stpp.DataReferenceIndex == 1
+
+// ---- wire format of the identifier-carrying boxes (ISO/IEC 14496-12 8.8.3 trex, 8.3.2 tkhd, 8.2.2 mvhd, 8.4.2 mdhd; version 0)
+// One predicate per box states "the bytes of a box starting at offset p carry the identifying fields of b"; the encoder
+// establishes it for the bytes it wrote, the decoder (entered after the 8 header bytes) for the structure it returns.
+//@ pred wireTrex(a []byte, p int, b *TrexBox) = be32(a, p+12) == b.TrackID && be32(a, p+16) == b.DefaultSampleDescriptionIndex && be32(a, p+20) == b.DefaultSampleDuration && be32(a, p+24) == b.DefaultSampleSize && be32(a, p+28) == b.DefaultSampleFlags
+//@ pred wireTkhd0(a []byte, p int, b *TkhdBox) = a[p+8] == 0 && be32(a, p+20) == b.TrackID && be16(a, p+44) == uint16(b.Volume) && be32(a, p+84) == uint32(b.Width) && be32(a, p+88) == uint32(b.Height)
+//@ pred wireMvhd0(a []byte, p int, b *MvhdBox) = a[p+8] == 0 && be32(a, p+20) == b.Timescale && be32(a, p+104) == b.NextTrackID
+//@ pred wireMdhd0(a []byte, p int, b *MdhdBox) = a[p+8] == 0 && be32(a, p+20) == b.Timescale && be16(a, p+28) == b.Language
+
+//@ func (*TrexBox).EncodeSW
+//@   ensures[C19] result == nil ==> wireTrex(sw.(*bits.FixedSliceWriter).buf, old(sw.(*bits.FixedSliceWriter).off), b)
+//@ func DecodeTrexSR
+//@   ensures[C19] result1 == nil ==> typeis(result0, "*TrexBox") && wireTrex(sr.(*bits.FixedSliceReader).slice, old(sr.(*bits.FixedSliceReader).pos) - 8, result0.(*TrexBox))
+
+//@ func (*TkhdBox).EncodeSW
+//@   ensures[C19] result == nil && b.Version == 0 ==> be32(sw.(*bits.FixedSliceWriter).buf, old(sw.(*bits.FixedSliceWriter).off) + 20) == b.TrackID
+//@ func DecodeTkhdSR
+//@   ensures[C19] result1 == nil && sr.(*bits.FixedSliceReader).slice[old(sr.(*bits.FixedSliceReader).pos)] == 0 ==> typeis(result0, "*TkhdBox") && result0.(*TkhdBox).Version == 0 && wireTkhd0(sr.(*bits.FixedSliceReader).slice, old(sr.(*bits.FixedSliceReader).pos) - 8, result0.(*TkhdBox))
+
+//@ func (*MvhdBox).EncodeSW
+//@   ensures[C19] result == nil && b.Version == 0 ==> be32(sw.(*bits.FixedSliceWriter).buf, old(sw.(*bits.FixedSliceWriter).off) + 104) == b.NextTrackID
+//@ func DecodeMvhdSR
+//@   ensures[C19] result1 == nil && sr.(*bits.FixedSliceReader).slice[old(sr.(*bits.FixedSliceReader).pos)] == 0 ==> typeis(result0, "*MvhdBox") && result0.(*MvhdBox).Version == 0 && wireMvhd0(sr.(*bits.FixedSliceReader).slice, old(sr.(*bits.FixedSliceReader).pos) - 8, result0.(*MvhdBox))
+
+//@ func (*MdhdBox).EncodeSW
+//@   ensures[C19] result == nil && m.Version == 0 && m.Flags < 1<<24 ==> wireMdhd0(sw.(*bits.FixedSliceWriter).buf, old(sw.(*bits.FixedSliceWriter).off), m)
+//@ func DecodeMdhdSR
+//@   ensures[C19] result1 == nil && sr.(*bits.FixedSliceReader).slice[old(sr.(*bits.FixedSliceReader).pos)] == 0 ==> typeis(result0, "*MdhdBox") && result0.(*MdhdBox).Version == 0 && wireMdhd0(sr.(*bits.FixedSliceReader).slice, old(sr.(*bits.FixedSliceReader).pos) - 8, result0.(*MdhdBox))
+
+// ---- looking up the trex of a track (what a fragment decoder does with the track id of a tfhd)
+//@ func (*MvexBox).GetTrex
+//@   requires m != nil && (forall i int :: 0 <= i && i < len(m.Trexs) ==> m.Trexs[i] != nil)
+//@   ensures[C19] ok ==> trex != nil && trex.TrackID == trackID && (exists i int :: 0 <= i && i < len(m.Trexs) && m.Trexs[i] == trex)
+//@   ensures[C19] !ok ==> trex == nil && (forall i int :: 0 <= i && i < len(m.Trexs) ==> m.Trexs[i].TrackID != trackID)
+//@   assigns nothing
+//@   loop 1 invariant forall i int :: 0 <= i && i < idx(1) ==> m.Trexs[i].TrackID != trackID
+
+// ---- a decoded moov whose first track has an empty stts is recognised as the init segment of a fragmented file
+// (only this branch of File.AddChild is specified here; the other branches belong to the segment bookkeeping of C04/C09)
+//@ pred firstTrakEmptyStts(m *MoovBox) = m != nil && m.Trak != nil && m.Trak.Mdia != nil && m.Trak.Mdia.Minf != nil && m.Trak.Mdia.Minf.Stbl != nil && m.Trak.Mdia.Minf.Stbl.Stts != nil && len(m.Trak.Mdia.Minf.Stbl.Stts.SampleCount) == 0
+//@ func (*File).AddChild
+//@   ensures[C19] f != nil && typeis(child, "*MoovBox") && old(firstTrakEmptyStts(child.(*MoovBox))) ==> f.isFragmented && f.Moov == child.(*MoovBox) && f.Init != nil && f.Init.Moov == child.(*MoovBox) && f.Init.Ftyp == old(f.Ftyp)
+//@   ensures[C19] f != nil && typeis(child, "*MoovBox") && old(firstTrakEmptyStts(child.(*MoovBox))) ==> len(f.Init.Children) == 2
+
+// ---- elng: a tag of two or more characters is encoded with the FullBox header and decoded as such (a payload of
+// 4 + len + 1 >= 7 bytes); shorter tags would be mistaken for the legacy layout without version/flags.
+//@ func DecodeElngSR
+//@   ensures[C19] result1 == nil && hdr.Size - uint64(hdr.Hdrlen) >= 7 ==> typeis(result0, "*ElngBox") && !result0.(*ElngBox).missingFullBox && result0.(*ElngBox).Version == 0 && result0.(*ElngBox).Flags == 0
+//@ func (*ElngBox).EncodeSW
+//@   ensures[C19] result == nil && !b.missingFullBox && len(b.Language) >= 2 ==> b.Size() - 8 >= 7 && be32(sw.(*bits.FixedSliceWriter).buf, old(sw.(*bits.FixedSliceWriter).off)) == uint32(b.Size())
+
+// ---- a fragment created for a track id carries that id in its tfhd (the key GetTrex is called with when decoding it)
+//@ func (*Fragment).AddChild
+//@   inline
+//@ func (*MoofBox).AddChild
+//@   inline
+//@ func (*TrafBox).AddChild
+//@   inline
+//@ func CreateFragment
+//@   ensures[C19] result1 == nil && result0 != nil && fresh(result0) && result0.Moof != nil && result0.Moof.Traf != nil && len(result0.Moof.Trafs) == 1 && result0.Moof.Trafs[0] == result0.Moof.Traf
+//@   ensures[C19] result0.Moof.Traf.Tfhd != nil && result0.Moof.Traf.Tfhd.TrackID == trackID && result0.Moof.Traf.Tfhd.SampleDescriptionIndex == 1
+//@   ensures[C19] result0.Moof.Mfhd != nil && result0.Moof.Mfhd.SequenceNumber == seqNumber && result0.Mdat != nil
+//@   assigns nothing
+//@ func NewFragment
+//@   ensures result != nil && fresh(result)
+//@   ensures[C19] result.Moof == nil
+//@   assigns nothing
+//@ func CreateMultiTrackFragment
+//@   ensures[C19] result1 == nil && result0 != nil && result0.Moof != nil && len(result0.Moof.Trafs) == len(trackIDs)
+//@   ensures[C19] forall k int :: 0 <= k && k < len(trackIDs) ==> result0.Moof.Trafs[k] != nil && result0.Moof.Trafs[k].Tfhd != nil
+// NOT DECIDED (solver: unknown after 240 s, preservation of a quantified invariant over the appended slice):
+//   ensures[C19] forall k int :: 0 <= k && k < len(trackIDs) ==> result0.Moof.Trafs[k].Tfhd.TrackID == trackIDs[k]
+//   loop 1 invariant forall k int :: 0 <= k && k < idx(1) ==> moof.Trafs[k].Tfhd.TrackID == trackIDs[k]
+//@   loop 1 invariant f != nil && moof != nil && f.Moof == moof && len(moof.Trafs) == idx(1)
+//@   loop 1 invariant forall k int :: 0 <= k && k < idx(1) ==> moof.Trafs[k] != nil
+//@   loop 1 invariant forall k int :: 0 <= k && k < idx(1) ==> moof.Trafs[k].Tfhd != nil
